@@ -9,7 +9,7 @@ import (
 )
 
 func init() {
-	vRegister("vC10_sequence", vC10_sequence)
+	vRegister("vC10_step", vC10_step)
 }
 
 // ---- shared by C09/C10: PIDs living in a real tree of a bare actor system ----------------------------------
@@ -78,10 +78,11 @@ func vT_terminatedTo(w, dead *PID) int {
 
 // ---- C10 ----------------------------------------------------------------------------------------------------
 
-// root with three children; K Watch/UnWatch operations between arbitrary distinct actors; then one of them terminates
-// (freeWatchers, the step of doStop that notifies) while every other actor is in an arbitrary liveness state.
-func vC10_sequence() {
-	const K = 3
+// root with three children in an ARBITRARY watch relation (built with the real addWatcher/removeWatcher, concrete
+// arguments under symbolic guards so that the tree's map keys stay concrete); one arbitrary Watch or UnWatch; then one of
+// the four actors terminates (freeWatchers, the step of doStop that notifies) while every other actor is in an arbitrary
+// liveness state. An arbitrary relation followed by one operation covers operation sequences of any length.
+func vC10_step() {
 	sys := vT_newSystem()
 	tr := sys.tree()
 	var p [4]*PID
@@ -92,33 +93,53 @@ func vC10_sequence() {
 		vAssert(tr.addNode(p[0], p[i]) == nil, "child registers")
 	}
 	var model [4][4]bool // model[w][t]: w watches t
-	model[0][1], model[0][2], model[0][3] = true, true, true // a parent watches its children
-	for k := 0; k < K; k++ {
-		ww, tt := vChoose("watcher", 4), vChoose("watchee", 4)
-		vAssume(ww != tt)
-		un := vNondetBool("unwatch")
-		if un {
-			p[ww].UnWatch(p[tt])
-			model[ww][tt] = false
-			vCover("unwatch")
-		} else {
-			p[ww].Watch(p[tt])
-			model[ww][tt] = true
-			vCover("watch")
+	for w := 0; w < 4; w++ {
+		for t := 0; t < 4; t++ {
+			if w == t {
+				continue
+			}
+			model[w][t] = vNondetBool("watches")
+			parentDefault := w == 0 // addNode made the parent watch its child
+			if model[w][t] && !parentDefault {
+				tr.addWatcher(p[t], p[w])
+			}
+			if !model[w][t] && parentDefault {
+				tr.removeWatcher(p[t], p[w])
+			}
+		}
+	}
+	// one arbitrary operation
+	ww, tt := vChoose("watcher", 4), vChoose("watchee", 4)
+	vAssume(ww != tt)
+	un := vNondetBool("unwatch")
+	for w := 0; w < 4; w++ {
+		for t := 0; t < 4; t++ {
+			if w != t && w == ww && t == tt {
+				if un {
+					p[w].UnWatch(p[t])
+					model[w][t] = false
+					vCover("unwatch")
+				} else {
+					p[w].Watch(p[t])
+					model[w][t] = true
+					vCover("watch")
+				}
+			}
 		}
 	}
 	// the tree's relation is the model's, in both directions
-	for w := 0; w < 4; w++ {
-		for t := 0; t < 4; t++ {
+	for t := 0; t < 4; t++ {
+		ws := tr.watchers(p[t])
+		es := tr.watchees(p[t])
+		for w := 0; w < 4; w++ {
 			if w != t {
-				vAssert(vT_contains(tr.watchers(p[t]), p[w]) == model[w][t], "watchers(t) holds exactly the actors that watched t and did not unwatch it since")
-				vAssert(vT_contains(tr.watchees(p[w]), p[t]) == model[w][t], "watchees(w) mirrors watchers(t)")
+				vAssert(vT_contains(ws, p[w]) == model[w][t], "watchers(t) holds exactly the actors that watched t and did not unwatch it since")
+				vAssert(vT_contains(es, p[w]) == model[t][w], "watchees(w) mirrors watchers(t)")
 			}
 		}
 	}
 	// liveness of the bystanders: 0 running, 1 stopped, 2 suspended, 3 stopping, 4 passivating
 	var mode [4]int
-	t := vChoose("terminating", 4)
 	for w := 0; w < 4; w++ {
 		mode[w] = vChoose("state", 5)
 		switch mode[w] {
@@ -132,6 +153,7 @@ func vC10_sequence() {
 			p[w].setState(passivatingState, true)
 		}
 	}
+	t := vCase("terminating")
 	vC10_terminate(tr, &p, t, &model, &mode)
 	vCover("end")
 }
